@@ -62,6 +62,13 @@ def group_validate_cases(cases, seed):
             g3 = json.loads(json.dumps(g))
             g3["opts"]["zeroPrefixed"] = True
             out.append(g3)
+            # ... and with the first option of an in / notIn list named twice (as written, and with the enum's prefix):
+            # the list denotes the same options, whatever comes after the repeat included
+            if g["decl"]["in"] or g["decl"]["notIn"]:
+                for rep in ("same", "prefixed"):
+                    g4 = json.loads(json.dumps(g))
+                    g4["opts"]["listRepeat"] = rep
+                    out.append(g4)
     return out
 
 
